@@ -1,14 +1,18 @@
 import Driver.Parse
+import AvroModel.Theorems.C01driver
 import AvroModel.Theorems.C01full
 import AvroModel.Theorems.C03full
+import AvroModel.Theorems.C04fuel
 /-
 Non-vacuity audit, area A: properties C01 (datum round trip), C02 (serializer soundness),
 C03 (decoder conformance).
 
 Contents
   §1  `ExtOK` against the external-parameter table the driver really runs (`ExtTable.toExt`):
-      the hypothesis is FALSE for every table (`toExt_not_ExtOK`), the default one included; a
-      clamped variant of the table satisfies it (`clampExt_ok`) and is what the instances below use.
+      with its `rescale` clause in the conditional form (repaired after this audit) it HOLDS for
+      every table that passes the driver's range check (`Theorems.toExt_ExtOK`, `tB_ok`,
+      `empty_ok`), and every instance below uses the driver's own `toExt`; the former
+      unconditional clause is false for every table (`toExt_not_ExtOK_unconditional`).
   §2  `Good` against the driver's initial serializer states.
   §3  serializer side on a schema obtained with `freezeNodes` (namespaced record, array, union,
       enum, decimal on bytes and on fixed, one field fed through `rust_decimal`'s parser):
@@ -24,7 +28,10 @@ Contents
       `C03_de_refines_spec`, `C03_de_accepts_impl_layouts`, `C03_de_sound`,
       `C03_de_rejects_invalid`, `C03_decodeL_*`; an invalid input (bad union index in the second
       block): `C03_invalid_is_err`, `C03_invalid_is_err_class` at the driver's fuel.
-  §6  the fuel hypotheses against the driver's fuel formula (`deOne`, Driver/Main.lean).
+  §6  the fuel hypotheses against the driver's fuel (`Avro.Impl.deFuel`, used by `deOne`,
+      Driver/Main.lean): the driver's fuel is unconditionally `≥ fuelBound`
+      (`fuelBound_le_deFuel`), so the acceptance theorems transfer to the driver's runs
+      (`C03_de_refines_spec_at_driverFuel`).
 -/
 namespace Avro.NonVacuityA
 open Avro Avro.Impl Avro.Spec Avro.Theorems Driver
@@ -54,58 +61,38 @@ theorem lookup_big_none (l : List ((Int × Nat × Nat) × (Int × Nat))) (m : In
     simp only [List.lookup, hne]
     exact ih h2
 
-/-- **Finding.**  `ExtOK ext` — a hypothesis of `C02_sound_strong`, `C02_sound_partial`,
-    `C02_unrepresentable_err`, `C01_ser_canonical(_strict/_checks)`, `C01_roundtrip_impl(_bounded)` —
-    is FALSE for the `Ext` the driver passes to `ser` (`ExtTable.toExt t`), for EVERY table `t`:
-    `ExtOK.rescale` quantifies over all pairs `d : Int × Nat`, also those whose mantissa does not
-    fit `i128`, and `toExt` answers `d` itself outside its finite table. -/
-theorem toExt_not_ExtOK (t : ExtTable) : ¬ ExtOK t.toExt := by
+/-- **Finding (repaired).**  `ExtOK.rescale` used to read
+    `∀ d scale, inI128 (ext.decRescale d scale).1`, over all pairs `d : Int × Nat`, also those whose
+    mantissa does not fit `i128`; `toExt` answers `d` itself outside its finite table, so that
+    clause was FALSE for the `Ext` the driver passes to `ser`, for EVERY table `t`. -/
+theorem toExt_not_ExtOK_unconditional (t : ExtTable) :
+    ¬ ∀ d scale, inI128 (t.toExt.decRescale d scale).1 = true := by
   intro h
-  have h1 := h.rescale ((2:Int)^127 + keyBound t.rescale + 1, 0) 0
+  have h1 := h ((2:Int)^127 + keyBound t.rescale + 1, 0) 0
   have h2 := lookup_big_none t.rescale ((2:Int)^127 + keyBound t.rescale + 1) (by omega) 0 0
   simp only [ExtTable.toExt, h2, inI128, decide_eq_true_eq] at h1
   omega
 
-/-- in particular for the default (empty) table, the one the `schema-case` command and most
-    streams use -/
-example : ¬ ExtOK ({} : ExtTable).toExt := toExt_not_ExtOK {}
-
-/-- The only use of `ExtOK.rescale` in the proofs (`serDecimal_regular_sound`) is on a `d` that
-    `decParse`/`decFromF64` returned, i.e. with `inI128 d.1`.  The conditional form is met by the
-    driver's default table. -/
-example : ∀ d scale, inI128 d.1 = true →
-    inI128 ((({} : ExtTable).toExt).decRescale d scale).1 = true := by
-  intro d scale h
-  simpa [ExtTable.toExt] using h
-
-/-- The driver's table with `decRescale` clamped into `i128` (NOT what the driver runs). -/
-def clampExt (t : ExtTable) : Ext :=
-  { t.toExt with
-    decRescale := fun d s =>
-      let r := t.toExt.decRescale d s
-      if inI128 r.1 then r else (0, r.2) }
-
-theorem clampExt_ok (t : ExtTable)
-    (hf : ∀ b d, (t.df64.lookup b).join = some d → inI128 d.1 = true ∧ d.2 < 2 ^ 63)
-    (hp : ∀ s d, (t.dparse.lookup s).join = some d → inI128 d.1 = true ∧ d.2 < 2 ^ 63) :
-    ExtOK (clampExt t) := by
-  refine ⟨fun d s => ?_, fun b d h => hf _ d h, fun s d h => hp s d h⟩
-  simp only [clampExt]
-  split <;> simp_all [inI128]
-
-/-- a table as the harness ships it: `"1.5".parse::<Decimal>()` and its `rescale(2)` -/
+/-- The clause is now conditional (`inI128 d.1 → …`: the serializer only rescales what
+    `decParse` / `decFromF64` returned) and `ExtOK` holds for the driver's `Ext`, for every table
+    that passes the range check the driver's parser applies (`Theorems.toExt_ExtOK`,
+    `Theorems.pExtEntries_ExtOK`).  A table as the harness ships it:
+    `"1.5".parse::<Decimal>()` and its `rescale(2)`. -/
 def tB : ExtTable :=
   { dparse := [("1.5", some (15, 1))], rescale := [((15, 1, 2), (150, 2))] }
 
-theorem clamp_tB_ok : ExtOK (clampExt tB) := by
-  refine clampExt_ok tB (fun b d h => by simp [tB] at h) (fun s d h => ?_)
-  simp only [tB, List.lookup] at h
-  split at h
-  · simp at h; subst h; decide
-  · simp at h
+theorem tB_ok : ExtOK tB.toExt := toExt_ExtOK tB (by decide)
 
-theorem clamp_empty_ok : ExtOK (clampExt {}) :=
-  clampExt_ok {} (fun b d h => by simp at h) (fun s d h => by simp at h)
+/-- the default (empty) table, the one the `schema-case` command and most streams use -/
+theorem empty_ok : ExtOK ({} : ExtTable).toExt := toExt_ExtOK_empty
+
+/-- the check is not void: a table answering a 2^127 mantissa is refused by the driver's parser
+    (`pExtEntries`), and its `Ext` does not satisfy `ExtOK` -/
+example : ({ dparse := [("x", some ((2:Int)^127, 0))] } : ExtTable).ok = false := by decide
+example : ¬ ExtOK ({ dparse := [("x", some ((2:Int)^127, 0))] } : ExtTable).toExt := by
+  intro h
+  have := (h.parse "x" ((2:Int)^127, 0) (by simp [ExtTable.toExt])).1
+  simp [inI128] at this
 
 /-! ## §2 `Good` and the driver's initial states -/
 
@@ -154,12 +141,9 @@ def oB : Out := .map [(.str "a" false, .seq [.i64 1, .i64 3]), (.str "u" false, 
   (.str "f" false, .str "7.0" false)]
 def bytesB : Bytes := [4, 2, 6, 0, 2, 2, 120, 4, 0, 150, 2, 0, 0, 0, 70]
 
-theorem svB_ok : (ser (clampExt tB) false SB nodeB svB {}).1 = .ok () :=
+theorem svB_ok : (ser tB.toExt false SB nodeB svB {}).1 = .ok () :=
   ok_of_toBool (by decide +kernel)
-theorem svB_out : (ser (clampExt tB) false SB nodeB svB {}).2.out = bytesB := by decide +kernel
-/-- the run with the table the driver really uses writes the same bytes (but the theorems cannot
-    be instantiated with it, §1) -/
-theorem svB_out_driver : (ser tB.toExt false SB nodeB svB {}).2.out = bytesB := by decide +kernel
+theorem svB_out : (ser tB.toExt false SB nodeB svB {}).2.out = bytesB := by decide +kernel
 
 theorem vB_encode : Spec.encode SB nodeB vB = some bytesB := by decide +kernel
 theorem vB_observe : Spec.observe SB nodeB vB = some oB := by rw [SB_eq]; rfl
@@ -174,52 +158,53 @@ theorem SB_ok : SchemaOK SB :=
 theorem nodeB_ok : Avro.NodeOK SB nodeB := NodeOK.of_check (by decide +kernel)
 
 /-- `C02_sound_strong` -/
-example : ∃ s' v bytes, ser (clampExt tB) false SB nodeB svB {} = (.ok (), s') ∧
+example : ∃ s' v bytes, ser tB.toExt false SB nodeB svB {} = (.ok (), s') ∧
     s'.out = ({} : SerState).out ++ bytes ∧ Good s' ∧
     (∃ N, ∀ fuel, N ≤ fuel → ∀ rest, Spec.decode SB fuel nodeB (bytes ++ rest) = some (v, rest)) ∧
-    Spec.denotes (denExtOf (clampExt tB)) SB nodeB svB v = true :=
-  C02_sound_strong (clampExt tB) false SB nodeB svB {} svB_ok C01glue.good_empty SB_ok nodeB_ok
-    (by decide +kernel) clamp_tB_ok
+    Spec.denotes (denExtOf tB.toExt) SB nodeB svB v = true :=
+  C02_sound_strong tB.toExt false SB nodeB svB {} svB_ok C01glue.good_empty SB_ok nodeB_ok
+    (by decide +kernel) tB_ok
 
 /-- `C02_sound_partial` (the decidable checks hold for the `freezeNodes` output) -/
 example : ∃ v bytes,
-    (ser (clampExt tB) false SB nodeB svB { out := [], budget := none, pool := {} }).2.out
+    (ser tB.toExt false SB nodeB svB { out := [], budget := none, pool := {} }).2.out
       = [] ++ bytes ∧
     (∃ N, ∀ fuel, N ≤ fuel → Spec.decode SB fuel nodeB bytes = some (v, [])) ∧
-    Spec.denotes (denExtOf (clampExt tB)) SB nodeB svB v = true ∧
-    PoolClean (ser (clampExt tB) false SB nodeB svB
+    Spec.denotes (denExtOf tB.toExt) SB nodeB svB v = true ∧
+    PoolClean (ser tB.toExt false SB nodeB svB
       { out := [], budget := none, pool := {} }).2.pool :=
-  C02_sound_partial (clampExt tB) false SB nodeB svB [] {} svB_ok poolClean_empty
+  C02_sound_partial tB.toExt false SB nodeB svB [] {} svB_ok poolClean_empty
     (by decide +kernel) (by decide +kernel) (by decide +kernel) (by decide +kernel)
-    (by decide +kernel) (by decide +kernel) clamp_tB_ok
+    (by decide +kernel) (by decide +kernel) tB_ok
 
 /-- `C01_ser_canonical_checks`, no permission asked -/
 example : ∃ v bytes,
-    (ser (clampExt tB) false SB nodeB svB { out := [], budget := none, pool := {} }).2.out
+    (ser tB.toExt false SB nodeB svB { out := [], budget := none, pool := {} }).2.out
       = [] ++ bytes ∧
     Spec.encode SB nodeB v = some bytes ∧
-    Spec.denotes (denExtOf (clampExt tB)) SB nodeB svB v = true ∧
-    PoolClean (ser (clampExt tB) false SB nodeB svB
+    Spec.denotes (denExtOf tB.toExt) SB nodeB svB v = true ∧
+    PoolClean (ser tB.toExt false SB nodeB svB
       { out := [], budget := none, pool := {} }).2.pool :=
-  C01_ser_canonical_checks {} (clampExt tB) false SB nodeB svB [] {} svB_ok poolClean_empty
+  C01_ser_canonical_checks {} tB.toExt false SB nodeB svB [] {} svB_ok poolClean_empty
     (by decide +kernel) (by decide +kernel) (by decide +kernel) (by decide +kernel)
-    (by decide +kernel) (by decide +kernel) clamp_tB_ok (by decide +kernel) (by decide +kernel)
+    (by decide +kernel) (by decide +kernel) tB_ok (by decide +kernel) (by decide +kernel)
     (by decide +kernel)
 
-/-- the driver's fuel for one datum (`deOne`, Driver/Main.lean) -/
-def driverFuel (cfg : DeConfig) (S : Schema) (depth len : Nat) : Nat :=
-  (depth + 4) * (cfg.maxSeqSize + 8 * S.size + 64) + 16 * len + 4096
+/-- the driver's fuel for one datum (`deOne`, Driver/Main.lean): the REAL definition
+    `Avro.Impl.deFuel` (`Lemmas/DriverFuel.lean`), at the hint `.any` used throughout this file -/
+abbrev driverFuel (cfg : DeConfig) (S : Schema) (depth len : Nat) : Nat :=
+  deFuel cfg S .any depth len
 
 /-- `C01_roundtrip_impl`, fully concrete, with the default deserializer configuration and the
     driver's fuel: `ser` then `de` gives `observe vB` and leaves `rest`. -/
 example (rest : Bytes) :
-    ∃ s', ser (clampExt tB) false SB nodeB svB {} = (.ok (), s') ∧ s'.out = bytesB ∧
-      Spec.denotes (denExtOf (clampExt tB)) SB nodeB svB vB = true ∧
+    ∃ s', ser tB.toExt false SB nodeB svB {} = (.ok (), s') ∧ s'.out = bytesB ∧
+      Spec.denotes (denExtOf tB.toExt) SB nodeB svB vB = true ∧
       de deExtModel {} SB (driverFuel {} SB 64 (bytesB ++ rest).length)
         nodeB 64 false .any { rest := s'.out ++ rest } = (.ok oB, { rest := rest }) := by
   obtain ⟨s', bytes, v, hrun, hout, henc, hden, hde⟩ :=
-    C01_roundtrip_impl {} (clampExt tB) false SB nodeB svB {} svB_ok C01glue.good_empty SB_ok
-      nodeB_ok (by decide +kernel) clamp_tB_ok (by decide +kernel) SB_allows (by decide +kernel)
+    C01_roundtrip_impl {} tB.toExt false SB nodeB svB {} svB_ok C01glue.good_empty SB_ok
+      nodeB_ok (by decide +kernel) tB_ok (by decide +kernel) SB_allows (by decide +kernel)
       SB_fixedDecFits (by decide +kernel)
   have hb : bytes = bytesB := by
     have := svB_out
@@ -233,7 +218,7 @@ example (rest : Bytes) :
   rw [hout']
   exact hde {} 64 oB vB_observe (by decide +kernel) (by decide +kernel) _
     (by have : Spec.size vB = 18 := by decide +kernel
-        rw [this]; simp only [driverFuel]; omega) rest _ rfl rfl rfl rfl
+        rw [this]; exact Nat.le_trans (by omega) (Nat.le_max_left _ _)) rest _ rfl rfl rfl rfl
 
 /-! ### A conforming presentation that no permission set of `C01_ser_canonical` covers
 
@@ -315,11 +300,11 @@ theorem svE_denotes_nothing (ext : DenExt) (v : Value) :
     | n + 2 => simp
   | n + 2 => simp [denotesAtLeaf, nodeE, unionBranch]
 
-example : (ser (clampExt {}) false SE nodeE (.some (.str "C"))
+example : (ser ({} : ExtTable).toExt false SE nodeE (.some (.str "C"))
     { out := [], budget := none, pool := {} }).1 ≠ .ok () :=
-  C02_unrepresentable_err (clampExt {}) false SE nodeE (.some (.str "C")) [] {} poolClean_empty
+  C02_unrepresentable_err ({} : ExtTable).toExt false SE nodeE (.some (.str "C")) [] {} poolClean_empty
     (by decide +kernel) (by decide +kernel) (by decide +kernel) (by decide +kernel)
-    (by decide +kernel) (by decide +kernel) clamp_empty_ok (svE_denotes_nothing _)
+    (by decide +kernel) (by decide +kernel) empty_ok (svE_denotes_nothing _)
 
 /-! ### `C01_roundtrip_impl_bounded`: its `hlim` quantifies over EVERY value the presentation
 denotes; here it is proved for `Some(vec![1i64, -3])` on `union [null, array<long>]`. -/
@@ -366,16 +351,16 @@ theorem SU_fixedDecFits : Schema.fixedDecFits SU := by
   have : SU.all Node.fixedDecFits = true := by decide +kernel
   exact Array.all_getElem? this hk
 
-example : ∃ s' bytes v o, ser (clampExt {}) false SU nodeU svU {} = (.ok (), s') ∧
+example : ∃ s' bytes v o, ser ({} : ExtTable).toExt false SU nodeU svU {} = (.ok (), s') ∧
     s'.out = ({} : SerState).out ++ bytes ∧
-    Spec.denotes (denExtOf (clampExt {})) SU nodeU svU v = true ∧ Spec.observe SU nodeU v = some o ∧
+    Spec.denotes (denExtOf ({} : ExtTable).toExt) SU nodeU svU v = true ∧ Spec.observe SU nodeU v = some o ∧
     ∀ fuel, Spec.size v * 4 + 8 ≤ fuel → ∀ rest : Bytes,
       de deExtModel { maxSeqSize := 2, allowedDepth := 2 } SU fuel nodeU 2 false .any
         { rest := bytes ++ rest } = (.ok o, { rest := rest }) :=
-  C01_roundtrip_impl_bounded { negInt := true } (clampExt {}) false
+  C01_roundtrip_impl_bounded { negInt := true } ({} : ExtTable).toExt false
     { maxSeqSize := 2, allowedDepth := 2 } SU nodeU svU {} 2
     (ok_of_toBool (by decide +kernel)) C01glue.good_empty SU_ok (NodeOK.of_check (by decide +kernel))
-    (by decide +kernel) clamp_empty_ok (by decide +kernel)
+    (by decide +kernel) empty_ok (by decide +kernel)
     (fun k n hk => Array.all_getElem? (p := Canon.nodeAllows { negInt := true })
       (by decide +kernel : SU.all (Canon.nodeAllows { negInt := true }) = true) hk)
     (by decide +kernel) SU_fixedDecFits (by decide +kernel)
@@ -529,8 +514,9 @@ example : de deExtModel {} S16 16 (.union [1, 2]) 64 false .any { rest := lay16 
     lay16_decodes (by rfl) (by rfl) (by decide +kernel) (by decide +kernel) 16 (by decide +kernel)
     { rest := lay16 } rfl rfl rfl rfl
 
-/-- `C03_block_sizes_checked` carries no information: `Limits.impl` and `Limits.implStrict` are the
-    same term, so `BlockSizesChecked` is `P → P`. -/
+/-- `Limits.impl` and `Limits.implStrict` are the same term (so the former
+    `C03_block_sizes_checked`, an implication between the two, was `P → P`; it has been replaced by
+    a statement about the deserializer, instantiated below). -/
 example : Limits.impl = Limits.implStrict := rfl
 
 /-! ### invalid input: the union index in the SECOND block (negative count + byte size) is out of
@@ -558,6 +544,18 @@ theorem badI_invalid : ∀ fuelS, Spec.decode SI fuelS nodeI badI = none := by
 example : Spec.decode SI 9 nodeI [0x02, 0x00, 0x01, 0x02, 0x00, 0x00] =
     some (.array [.union 0 .null, .union 0 .null], []) := by rfl
 
+/-- `C03_block_sizes_checked`: a first block with count -1 and byte size -1 (then a valid item
+    and the end marker) is refused by the real `de`, at any fuel -/
+example (fuel : Nat) (o : Out) :
+    (de deExtModel {} SI fuel nodeI 64 false .any { rest := [0x01, 0x01, 0x00, 0x00] }).1 ≠ .ok o :=
+  C03_block_sizes_checked {} SI nodeI 1 (.inl rfl) 64 fuel { rest := [0x01, 0x01, 0x00, 0x00] }
+    rfl rfl rfl (-1) (-1) [0x01, 0x00, 0x00] [0x00, 0x00] (by decide +kernel) (by decide)
+    (by decide +kernel) (by decide) o
+
+/-- … while the same block with byte size 1 is accepted: the sign of the size is what is checked -/
+example : Spec.decode SI 9 nodeI [0x01, 0x02, 0x00, 0x00] = some (.array [.union 0 .null], []) := by
+  rfl
+
 /-- `C03_invalid_is_err` -/
 example (o : Out) :
     (de deExtModel {} SI (driverFuel {} SI 64 badI.length) nodeI 64 false .any { rest := badI }).1
@@ -577,7 +575,8 @@ example :
 
 /-- The fuel hypotheses of `C01_de_accepts*` / `C03_de_refines_spec` (`size v * 4 + 8 ≤ fuel`) can
     EXCEED what the driver supplies: 100 arrays of 100 `null`s take 303 bytes, the driver gives
-    10 072 units, the theorem asks for 41 232. -/
+    10 072 units, the theorem asks for 41 232.  (Harmless: the driver's fuel is `≥ fuelBound`,
+    see `C03_de_refines_spec_at_driverFuel` below.) -/
 def SN : Schema := #[.array 1, .array 2, .null]
 def vN : Value := .array (List.replicate 100 (.array (List.replicate 100 .null)))
 def cfgN : DeConfig := { maxSeqSize := 100, allowedDepth := 2 }
@@ -612,29 +611,73 @@ theorem C03_de_refines_spec_above_bound (cfg : DeConfig) (S : Schema) (k : Nat) 
   exact C03_de_refines_spec cfg S node v bytes rest o depth fuelS fuelL hdec hobs hlim hdepth hseq
     _ (Nat.le_max_right _ _) s hs hl ha hr
 
-/-- The driver's fuel is above `fuelBound` whenever the widest record has at most
-    `8 * S.size + 60` fields … -/
-theorem driverFuel_ge_fuelBound (cfg : DeConfig) (S : Schema) (depth len : Nat)
-    (h : maxFields S ≤ 8 * S.size + 60) :
-    fuelBound cfg S .any depth ≤ driverFuel cfg S depth len := by
-  have hs : Hint.size .any = 1 := by simp [Hint.size]
-  have h1 : depth * (cfg.maxSeqSize + maxFields S + 4)
-      ≤ (depth + 4) * (cfg.maxSeqSize + 8 * S.size + 64) :=
-    Nat.mul_le_mul (by omega) (by omega)
-  simp only [fuelBound, levelCost, driverFuel, hs]
-  omega
+/-- The driver's fuel (`Avro.Impl.deFuel`) is above `fuelBound`, unconditionally (it used to be
+    only when the widest record has at most `8 * S.size + 60` fields). -/
+theorem driverFuel_ge_fuelBound (cfg : DeConfig) (S : Schema) (depth len : Nat) :
+    fuelBound cfg S .any depth ≤ driverFuel cfg S depth len :=
+  fuelBound_le_deFuel cfg S .any depth len
 
-/-- … which a schema need not satisfy: a record with 200 fields of one shared type has
-    `S.size = 2`; at the default depth 64 with `max_seq_size = 0` the driver's fuel on the empty
-    input is 9 536 and `fuelBound` is 13 060, so `C03_invalid_is_err_class` / the C04 theorems do
-    not apply to that driver run (the run itself needs far less). -/
+/-- Hence `C03_de_refines_spec` speaks about the driver's run, whatever the size of the value. -/
+theorem C03_de_refines_spec_at_driverFuel (cfg : DeConfig) (S : Schema) (k : Nat) (node : Node)
+    (hk : S[k]? = some node) (v : Spec.Value)
+    (bytes rest : Bytes) (o : Out) (depth fuelS fuelL : Nat)
+    (hdec : Spec.decode S fuelS node bytes = some (v, rest))
+    (hobs : Spec.observe S node v = some o)
+    (hlim : (Spec.decodeL Limits.impl S fuelL node bytes).isSome = true)
+    (hdepth : Spec.depthOf v ≤ depth) (hseq : Spec.maxLen v ≤ cfg.maxSeqSize)
+    (s : RState) (hs : s.isSlice = true) (hl : s.limit = none) (ha : s.avail = 0)
+    (hr : s.rest = bytes) :
+    de deExtModel cfg S (driverFuel cfg S depth s.rest.length) node depth false .any s
+      = (.ok o, { s with rest := rest }) :=
+  C03_de_refines_spec_above_bound cfg S k node hk v bytes rest o depth fuelS fuelL hdec hobs hlim
+    hdepth hseq _ (driverFuel_ge_fuelBound cfg S depth _) s hs hl ha hr
+
+/-- The historical formula alone (`deFuelBase`, what the driver passed before) was not: a record
+    with 200 fields of one shared type has `S.size = 2`; at the default depth 64 with
+    `max_seq_size = 0` that formula gives 9 536 on the empty input and `fuelBound` is 13 060.
+    The driver's fuel is now the larger of the two. -/
 def SW : Schema :=
   #[.record nmR ((List.range 200).map fun i => (toString i, 1)), .null]
 
-example : driverFuel { maxSeqSize := 0 } SW 64 0 < fuelBound { maxSeqSize := 0 } SW .any 64 := by
+example : deFuelBase { maxSeqSize := 0 } SW 64 0 < fuelBound { maxSeqSize := 0 } SW .any 64 ∧
+    driverFuel { maxSeqSize := 0 } SW 64 0 = fuelBound { maxSeqSize := 0 } SW .any 64 := by
   decide +kernel
 
-/-- On the nested-`null` instance the bridge applies: the driver's fuel is above the bound. -/
-example : fuelBound cfgN SN .any 2 ≤ driverFuel cfgN SN 2 303 := by decide +kernel
+/-- On the nested-`null` instance the first component is the larger one. -/
+example : fuelBound cfgN SN .any 2 ≤ driverFuel cfgN SN 2 303 ∧
+    driverFuel cfgN SN 2 303 = deFuelBase cfgN SN 2 303 := by decide +kernel
+
+/-- `C01_de_accepts` at the driver's fuel (root node of the schema), whatever the size of `v`. -/
+theorem C01_de_accepts_at_driverFuel (cfg : DeConfig) (S : Schema) (k : Nat) (n : Node)
+    (hk : S[k]? = some n) (v : Spec.Value) (enc rest : Bytes) (o : Out) (depth : Nat)
+    (henc : Spec.encode S n v = some enc) (hobs : Spec.observe S n v = some o)
+    (hfix : Spec.fixedDecOk S n v = true)
+    (hdepth : Spec.depthOf v ≤ depth) (hseq : Spec.maxLen v ≤ cfg.maxSeqSize)
+    (s : RState) (hs : s.isSlice = true) (hl : s.limit = none) (ha : s.avail = 0)
+    (hr : s.rest = enc ++ rest) :
+    de deExtModel cfg S (driverFuel cfg S depth s.rest.length) n depth false .any s
+      = (.ok o, { s with rest := rest }) := by
+  rw [de_fuel_bridge cfg S k n hk depth _ (max (driverFuel cfg S depth s.rest.length) (Spec.size v * 4 + 8))
+    (driverFuel_ge_fuelBound cfg S depth _)
+    (Nat.le_trans (driverFuel_ge_fuelBound cfg S depth _) (Nat.le_max_left _ _))]
+  exact C01_de_accepts cfg S n v enc rest o depth henc hobs hfix hdepth hseq _ (Nat.le_max_right _ _)
+    s hs hl ha hr
+
+/-- and the run the theorem's fuel hypothesis did not cover IS covered: the driver's model accepts
+    the 100 × 100 `null`s with its 10 072 units (the theorem's own hypothesis asks for 41 232). -/
+example : ∃ enc o, Spec.encode SN (.array 1) vN = some enc ∧ enc.length = 303 ∧
+    de deExtModel cfgN SN (driverFuel cfgN SN 2 303) (.array 1) 2 false .any { rest := enc }
+      = (.ok o, { rest := [] }) := by
+  obtain ⟨enc, henc⟩ : ∃ enc, Spec.encode SN (.array 1) vN = some enc :=
+    Option.isSome_iff_exists.1 (by decide +kernel)
+  obtain ⟨o, ho⟩ : ∃ o, Spec.observe SN (.array 1) vN = some o :=
+    Option.isSome_iff_exists.1 (by decide +kernel)
+  have hlen : enc.length = 303 := by
+    have := vN_enc_len; rw [henc] at this; exact Option.some.inj this
+  have := C01_de_accepts_at_driverFuel cfgN SN 0 (.array 1) rfl vN enc [] o 2 henc ho
+    (by decide +kernel) (by decide +kernel) (by decide +kernel) { rest := enc ++ [] } rfl rfl rfl rfl
+  simp only [List.append_nil] at this
+  rw [hlen] at this
+  exact ⟨enc, o, henc, hlen, this⟩
 
 end Avro.NonVacuityA
